@@ -388,3 +388,76 @@ Qed.
 
 Lemma hd_skipN_ranked l j : hd_error (skipN (vs_ranked l) j) = if j <? lenN l then Some (j, nthd l j) else None.
 Proof. unfold vs_ranked. rewrite hd_skipN_index_from. destruct (j <? lenN l); [do 2 f_equal; lia|reflexivity]. Qed.
+
+(* ---------------------------------------------------------------- index ranges of the (index, value) list *)
+
+Fixpoint rangeN (j : N) (d : nat) : list N :=
+  match d with O => [] | S d' => j :: rangeN (j + 1) d' end.
+
+(* the pairs (i, l[i]) for j <= i < k *)
+Definition seg (l : list N) (j k : N) : list (N * N) :=
+  map (fun i => (i, nthd l i)) (rangeN j (N.to_nat (k - j))).
+
+Lemma rangeN_snoc j d : rangeN j (S d) = rangeN j d ++ [j + N.of_nat d].
+Proof.
+  revert j. induction d as [|d IH]; intros j.
+  - cbn [rangeN app]. f_equal. lia.
+  - change (rangeN j (S (S d))) with (j :: rangeN (j + 1) (S d)). rewrite IH. cbn [rangeN app]. do 2 f_equal.
+    f_equal. lia.
+Qed.
+
+Lemma rangeN_ge j d i : In i (rangeN j d) -> j <= i.
+Proof.
+  revert j. induction d as [|d IH]; intros j Hin; cbn [rangeN In] in Hin; [contradiction|].
+  destruct Hin as [<-|Hin]; [lia|]. specialize (IH _ Hin). lia.
+Qed.
+
+Lemma seg_nil l j k : k <= j -> seg l j k = [].
+Proof. intros H. unfold seg. replace (N.to_nat (k - j)) with 0%nat by lia. reflexivity. Qed.
+
+Lemma seg_cons l j k : j < k -> seg l j k = (j, nthd l j) :: seg l (j + 1) k.
+Proof.
+  intros H. unfold seg. replace (N.to_nat (k - j)) with (S (N.to_nat (k - (j + 1)))) by lia. reflexivity.
+Qed.
+
+Lemma seg_snoc l j k : j < k -> seg l j k = seg l j (k - 1) ++ [(k - 1, nthd l (k - 1))].
+Proof.
+  intros H. unfold seg. replace (N.to_nat (k - j)) with (S (N.to_nat (k - 1 - j))) by lia.
+  rewrite rangeN_snoc, map_app. cbn [map]. replace (j + N.of_nat (N.to_nat (k - 1 - j))) with (k - 1) by lia. reflexivity.
+Qed.
+
+Lemma index_from_seg l i0 :
+  index_from l i0 = map (fun i => (i, nthd l (i - i0))) (rangeN i0 (length l)).
+Proof.
+  revert i0. induction l as [|a t IH]; intros i0; [reflexivity|].
+  cbn [index_from length rangeN map]. f_equal.
+  - f_equal. rewrite nthd_cons. replace (i0 - i0 =? 0) with true by lia. reflexivity.
+  - rewrite IH. apply map_ext_in. intros i Hi. apply rangeN_ge in Hi. f_equal.
+    rewrite nthd_cons. replace (i - i0 =? 0) with false by lia. f_equal. lia.
+Qed.
+
+Lemma vs_ranked_seg l : vs_ranked l = seg l 0 (lenN l).
+Proof.
+  unfold vs_ranked, seg. rewrite index_from_seg. unfold lenN. replace (N.to_nat (N.of_nat (length l) - 0)) with (length l) by lia.
+  apply map_ext. intros i. f_equal. f_equal. lia.
+Qed.
+
+Lemma skipN_seg l j k r : skipN (seg l j k) r = seg l (j + r) k.
+Proof.
+  remember (N.to_nat r) as d eqn:Hd. revert j r Hd. induction d as [|d IH]; intros j r Hd.
+  - replace r with 0 by lia. rewrite skipN_0. f_equal. lia.
+  - destruct (N.lt_ge_cases j k) as [Hjk|Hjk].
+    + rewrite (seg_cons l j k Hjk). rewrite skipN_cons_pos by lia. rewrite (IH (j + 1) (r - 1)) by lia. f_equal. lia.
+    + rewrite !seg_nil by lia. reflexivity.
+Qed.
+
+Lemma skipN_ranked_seg l r : skipN (vs_ranked l) r = seg l r (lenN l).
+Proof. rewrite vs_ranked_seg, skipN_seg. f_equal. Qed.
+
+Lemma deque_back_snoc {A} (l : list A) x t :
+  deque_run (l ++ [x]) (true :: t) = Some x :: deque_run l t.
+Proof.
+  cbn [deque_run]. rewrite app_length. cbn [length]. replace (length l + 1 - 1)%nat with (length l) by lia.
+  rewrite nth_error_app2 by lia. replace (length l - length l)%nat with 0%nat by lia. cbn [nth_error].
+  rewrite removelast_last. reflexivity.
+Qed.
